@@ -15,6 +15,8 @@ executed symbolically on every yielded unit).  The content object is an abstract
 instance with a list field of SYMBOLIC length; the loop invariant speaks about the
 yielded prefix (see contracts/c03_exec.py).
 """
+import ast
+
 import z3
 
 from pyvc.contracts import FnContract, LoopSpec, Raises
@@ -205,20 +207,55 @@ def paged_contract(p: Paged):
     if p.num != "pos":
         ens.append(("numbers-strictly-increasing-from-1-under-class-invariant" if p.num[2] == "increasing"
                     else "unit-number-is-1-based-position-under-class-invariant", e_position))
-    loop_ord = RTF_MAIN_LOOP if cls == "RtfContent" else 0
-    return FnContract(
+    spec_ = LoopSpec(inv=inv, label="units")
+    c_ = FnContract(
         target=f"{DT}::{cls}.iterate_units",
         params=[("self", p_ext(cls))] + [(k, p_bool()) for k in p.kwargs],
         generator=True,
         ensures=ens,
         raises=[],
-        loops={loop_ord: LoopSpec(inv=inv, label="units")},
+        loops={},
         result_maker=result_maker,
         note=f"one unit per {p.what} of self.{p.field} (symbolic length), in order, number/text as in SPEC",
     )
+    # the loop under the invariant is found by what it iterates (self.<field>, possibly through enumerate / a local alias),
+    # not by its position in the source
+    c_.loop_finder = lambda ex, fnode, node: spec_ if isinstance(node, ast.For) and iterates(fnode, node.iter, ("self", p.field)) else None
+    return c_
 
 
-RTF_MAIN_LOOP = 2   # loops of RtfContent.iterate_units in source order: images, tables, pages
+def _single_def(fnode, name):
+    """value expression of the only assignment to local `name` in fnode (None if not single / not simple)"""
+    defs = []
+    for n in ast.walk(fnode):
+        if isinstance(n, ast.Assign) and len(n.targets) == 1 and isinstance(n.targets[0], ast.Name) and n.targets[0].id == name:
+            defs.append(n.value)
+        elif isinstance(n, ast.AnnAssign) and isinstance(n.target, ast.Name) and n.target.id == name and n.value is not None:
+            defs.append(n.value)
+        elif isinstance(n, (ast.AugAssign,)) and isinstance(n.target, ast.Name) and n.target.id == name:
+            return None
+    return defs[0] if len(defs) == 1 else None
+
+
+def iterates(fnode, expr, what, depth=0):
+    """Does the iterable expression draw its elements from `what`?  what = ("self", field) | ("name", param) |
+    ("text", substring of the unparsed call).  Looks through enumerate / zip / list / iter / reversed-free wrappers and local
+    aliases with a single definition."""
+    if depth > 4:
+        return False
+    if what[0] == "self" and isinstance(expr, ast.Attribute) and isinstance(expr.value, ast.Name) and expr.value.id == "self" and expr.attr == what[1]:
+        return True
+    if what[0] == "name" and isinstance(expr, ast.Name) and expr.id == what[1]:
+        return True
+    if what[0] == "text" and isinstance(expr, ast.Call) and what[1] in ast.unparse(expr) and not any(
+            isinstance(a, (ast.Call, ast.Name)) and iterates(fnode, a, what, depth + 1) for a in expr.args):
+        return True
+    if isinstance(expr, ast.Call) and isinstance(expr.func, ast.Name) and expr.func.id in ("enumerate", "zip", "list", "tuple", "iter") and expr.args:
+        return iterates(fnode, expr.args[0], what, depth + 1)
+    if isinstance(expr, ast.Name):
+        d = _single_def(fnode, expr.id)
+        return d is not None and iterates(fnode, d, what, depth + 1)
+    return False
 
 
 def rtf_contract():
@@ -466,18 +503,33 @@ def build_slides_contract():
         st.heap[content.ref] = HeapObj("obj", d, old.cls, old.fresh)
         return NONE
 
-    return FnContract(
+    outer_spec, inner_spec = LoopSpec(inv=outer_inv, label="slides"), LoopSpec(inv=inner_inv, label="blocks")
+
+    def finder(ex, fnode, node):
+        if not isinstance(node, ast.For):
+            return None
+        if iterates(fnode, node.iter, ("name", "slides_texts")):
+            return outer_spec
+        outer = [n for n in ast.walk(fnode) if isinstance(n, ast.For) and iterates(fnode, n.iter, ("name", "slides_texts"))]
+        if len(outer) == 1 and any(x is node for x in ast.walk(outer[0])) and isinstance(outer[0].target, ast.Tuple) \
+                and isinstance(outer[0].target.elts[-1], ast.Name) and iterates(fnode, node.iter, ("name", outer[0].target.elts[-1].id)):
+            return inner_spec
+        return None
+
+    c_ = FnContract(
         target=f"{PPT}::_build_slides_from_text_blocks",
         params=[("content", p_ppt_content()), ("slides_texts", p_block_seqs())],
         ensures=[("appends-one-slide-per-entry", ens("count")), ("earlier-slides-kept", ens("kept")),
                  ("new-slides-numbered-1..n-in-order", ens("numbers")), ("all_text-grows-by-the-number-of-blocks", ens("all_text")),
                  ("other-fields-untouched", ens("frame"))],
         raises=[],
-        loops={0: LoopSpec(inv=outer_inv, label="slides"), 1: LoopSpec(inv=inner_inv, label="blocks")},
+        loops={},
         modifies=("content",),
         result_maker=post_state,
         note="slide k of slides_texts becomes a PptSlideContent numbered k (1-based), appended in order",
     )
+    c_.loop_finder = finder
+    return c_
 
 
 def cum_nonneg_hyp(c):
@@ -703,8 +755,19 @@ def parse_spine_contract():
                 out.append(cnt_idref_def(e, t, z3.IntVal(0)))
         return z3.And(out)
 
+    sp1, sp2 = LoopSpec(inv=inv_for(T_REF), label="itemrefs"), LoopSpec(inv=inv_for(T_REF_ANY), label="itemrefs-any-namespace")
+
+    def finder(ex, fnode, node):
+        if not isinstance(node, ast.For):
+            return None
+        if iterates(fnode, node.iter, ("text", "opf:itemref")):
+            return sp1
+        if iterates(fnode, node.iter, ("text", "{*}itemref")):
+            return sp2
+        return None
+
     from pyvc.verify import p_opt
-    return FnContract(
+    c_ = FnContract(
         target=f"{EPUB}::_EpubContext._parse_spine",
         hyps=hyps,
         params=[("self", p_obj("_EpubContext", {"_opf_root": p_opt(p_ext("Elem")), "_spine": p_alist("str")}))],
@@ -712,10 +775,12 @@ def parse_spine_contract():
         ensures=[("one-entry-per-itemref-with-idref", ens("count")), ("entries-in-document-order", ens("order")),
                  ("entry-k-is-the-idref-of-the-k-th-kept-itemref", ens("items"))],
         raises=[],
-        loops={0: LoopSpec(inv=inv_for(T_REF), label="itemrefs"), 1: LoopSpec(inv=inv_for(T_REF_ANY), label="itemrefs-any-namespace")},
+        loops={},
         modifies=("self",),
         note="reading order == idrefs of <spine>/<itemref> in document order; assumed: xml.etree findall returns direct children in document order",
     )
+    c_.loop_finder = finder
+    return c_
 
 
 # ------------------------------------------------------------ opaque members --
@@ -738,7 +803,47 @@ def install_opaque():
     OP[("XlsSheet", "get_table")] = xls_table
 
 
+OVER = z3.Bool("pyvc!overapprox")     # same marker as contracts/c04_exec.py: assumed on every over-approximated path
+
+
+def _untrusted(pc, goal):
+    return any(z3.eq(x, OVER) for x in pc)
+
+
 class C03Executor(ET.ETreeMixin, X.UnitsExecutor):
+    """+ loops under an invariant are found by what they iterate (contract attribute `loop_finder`);
+    + paths that went through an over-approximation (EXC-ANY call, loop cut without invariant) carry the marker OVER: a
+      solver model on such a path is not a counter-example (the VC becomes `unknown`, the native replayer decides)."""
+
+    def loop_spec(self, node):
+        c = self.contract
+        lf = getattr(c, "loop_finder", None) if c is not None else None
+        if lf is not None and self.inline_depth == 0:
+            fnode = self.cur_fn_stack[-1] if self.cur_fn_stack else None
+            return lf(self, fnode, node) if fnode is not None else None
+        return super().loop_spec(node)
+
+    def exc_any(self, st, site, also=()):
+        st.assume(OVER)
+        return super().exc_any(st, site, also)
+
+    def havoc_call(self, st, what, args, node):
+        r = super().havoc_call(st, what, args, node)
+        st.assume(OVER)
+        return r
+
+    def symbolic_for(self, s, st, it):
+        spec = self.loop_spec(s)
+        if spec is None or spec.inv is None:
+            st.assume(OVER)
+        return super().symbolic_for(s, st, it)
+
+    def s_While(self, s, st):
+        spec = self.loop_spec(s)
+        if spec is None or (spec.inv is None and spec.unroll is None):
+            st.assume(OVER)
+        return super().s_While(s, st)
+
     def compare(self, st, op, a, b, node):
         # `cell is None` on an abstract cell value
         if op in ("Is", "IsNot") and isinstance(a, VExt) and a.sort == "Cell" and b is NONE:
@@ -807,7 +912,45 @@ def contracts(reg):
     out.append(parse_spine_contract())
     from contracts import C16
     out.append(C16.split_contract())      # one message per non-empty slice between separator lines, in order
+    from pyvc import solve as _solve
+    if _untrusted not in _solve.SAT_UNTRUSTED:
+        _solve.SAT_UNTRUSTED.append(_untrusted)
+    for c in out:
+        _make_safe(c)
     return out
+
+
+def _safe(fn):
+    """A clause that cannot read the state it is given (a list the code now builds differently, a local that no longer exists)
+    is not a verdict about the code: OUT-OF-SUBSET (-> native replay decides), never an engine error."""
+    if fn is None or getattr(fn, "_c03_safe", False):
+        return fn
+
+    def g(*a, **k):
+        try:
+            return fn(*a, **k)
+        except (AttributeError, KeyError, TypeError, IndexError, z3.Z3Exception) as e:
+            from pyvc.ops import Unsupported
+            raise Unsupported(f"contract clause cannot interpret the state reached by the code: {type(e).__name__}: {e}")
+    g._c03_safe = True
+    return g
+
+
+def _make_safe(c):
+    if c.assumed:
+        return
+    c.requires, c.hyps = _safe(c.requires), _safe(c.hyps)
+    c.ensures = [(l, _safe(f)) for (l, f) in c.ensures]
+    for spec in list(c.loops.values()):
+        spec.inv = _safe(spec.inv)
+    lf = getattr(c, "loop_finder", None)
+    if lf is not None:
+        def lf2(ex, fnode, node, lf=lf):
+            sp = lf(ex, fnode, node)
+            if sp is not None:
+                sp.inv = _safe(sp.inv)
+            return sp
+        c.loop_finder = lf2
 
 
 from contracts import c03_flow  # noqa: E402
